@@ -476,8 +476,31 @@ def c18(ctx):
         ctx.notes.append('MC_Alloc vacuity guard: offset word inside the user range violates C18 as expected')
 
     def conf():
-        runner.ordered_traces(ctx, 'drv_alloc.cpp', 'alloc', [0], 'TraceAlloc', '.trace', cfgs=alloc_configs(ctx.tier),
-                              libs=['-Wl,--wrap=malloc,--wrap=free,--wrap=posix_memalign,--wrap=aligned_alloc'])
+        import os
+        import re as _re
+        wrap = ['-Wl,--wrap=malloc,--wrap=free,--wrap=posix_memalign,--wrap=aligned_alloc']
+        runner.ordered_traces(ctx, 'drv_alloc.cpp', 'alloc', [0], 'TraceAlloc', '.trace', cfgs=alloc_configs(ctx.tier), libs=wrap)
+        # TLC -> code: the complete state graph of the abstract history machine, one mini-history per transition
+        maxlive = 4 if ctx.tier == 'thorough' else 3
+        r = runner.tlc.model_check('Gen_Alloc', mc_cfg(['NSIZES = 6', 'MAXLIVE = %d' % maxlive], view='View').replace(
+            'CHECK_DEADLOCK FALSE', 'ACTION_CONSTRAINT Emit\nCHECK_DEADLOCK FALSE'), ctx.scratch, 'genalloc', workers=1)
+        if not r['ok']:
+            raise runner.tlc.TLCError('Gen_Alloc failed')
+        edges = _re.findall(r'<<"EDGE", <<([0-9, ]*)>>, "([ad])", (\d+)>>', r['output'])
+        script = os.path.join(ctx.scratch, 'genalloc.script')
+        with open(script, 'w') as f:
+            for pre, kind, arg in edges:
+                f.write('%s | %s %s\n' % (pre.replace(',', ' '), kind, arg))
+        ctx.ev['mc_runs'].append({'module': 'Gen_Alloc', 'tag': 'MAXLIVE=%d' % maxlive, 'distinct_states': r['states'],
+                                  'states_generated': r['generated'], 'edges_for_replay': len(edges)})
+        ctx.ev['states'] += r['states']
+        ctx.ev['transitions'] += len(edges)
+        os.environ['VH_ALLOC_SCRIPT'] = script
+        try:
+            runner.ordered_traces(ctx, 'drv_alloc.cpp', 'allocgen', [0], 'TraceAlloc', '.trace', cfgs=alloc_configs(ctx.tier), libs=wrap)
+        finally:
+            os.environ.pop('VH_ALLOC_SCRIPT', None)
+        ctx.notes.append('Gen_Alloc: %d transitions of the abstract history machine replayed as mini-histories on every (T, A) instantiation and build' % len(edges))
     _with_mc(ctx, mc, conf)
 
 
